@@ -141,7 +141,7 @@ Theorem exhausted_key_rekeys s k pkts :
   staged s' = stage (staged s) pkts /\ cur s' = cur s.
 Proof.
   intros Hc Hk Hp. cbn [dstep]. destruct pkts as [|p pkts]; [congruence|].
-  unfold flush. cbn [staged cur init_ok pending].
+  unfold flush, flush_gen. cbn [staged cur init_ok pending].
   assert (Hst : exists c q, stage (staged s) (p :: pkts) = c :: q).
   { unfold stage. destruct (N.of_nat (length (staged s)) <? QueueStagedSize).
     - destruct (staged s); cbn; eauto.
@@ -159,7 +159,7 @@ Theorem no_key_stages_and_initiates s pkts :
   o_tx o = [] /\ o_init o = (if init_ok s then 1 else 0) /\ staged s' = stage (staged s) pkts.
 Proof.
   intros Hc Hp. cbn [dstep]. destruct pkts as [|p pkts]; [congruence|].
-  unfold flush. cbn [staged cur init_ok pending].
+  unfold flush, flush_gen. cbn [staged cur init_ok pending].
   assert (Hst : exists c q, stage (staged s) (p :: pkts) = c :: q).
   { unfold stage. destruct (N.of_nat (length (staged s)) <? QueueStagedSize).
     - destruct (staged s); cbn; eauto.
@@ -180,7 +180,7 @@ Theorem rekey_after_2_60 s k pkts :
   Forall (fun t => kix t = kidx k /\ knonce k <= ctr t /\ ctr t < Reject) (o_tx o).
 Proof.
   intros Hc Hk Hp. cbn [dstep]. destruct pkts as [|p pkts]; [congruence|].
-  unfold flush. cbn [staged cur init_ok pending].
+  unfold flush, flush_gen. cbn [staged cur init_ok pending].
   destruct (stage (staged s) (p :: pkts)) as [|c q] eqn:Est.
   { cbn [o_tx]. intros (t & [] & _). }
   rewrite Hc. destruct (N.leb_spec Reject (knonce k)) as [C|_]; [lia|].
@@ -189,7 +189,7 @@ Proof.
   destruct (flush_loop_counters _ _ _ _ _ _ _ Hle E) as (G1 & G2 & G3 & G4).
   assert (Hall : Forall (fun t => kix t = kidx k /\ knonce k <= ctr t /\ ctr t < Reject) tx).
   { eapply Forall_impl; [|exact G3]. cbn beta. tauto. }
-  destruct (ex || (nonempty tx && (Rekey <? n'))) eqn:Ew.
+  cbn [andb]. destruct (ex || (nonempty tx && (Rekey <? n'))) eqn:Ew.
   - unfold initiate. cbn [init_ok]. destruct (init_ok s); cbn [o_tx o_init]; intros _; auto.
   - cbn [o_tx o_init]. intros (t & Hin & Hr). exfalso.
     apply orb_false_iff in Ew as [_ Ew].
@@ -498,10 +498,32 @@ Definition J (c : option keyp) (used : list N) (tr : list (N * N * N)) : Prop :=
 Lemma initiate_cur s tx : cur (fst (initiate s tx)) = cur s /\ o_tx (snd (initiate s tx)) = tx.
 Proof. unfold initiate. destruct (init_ok s); cbn; auto. Qed.
 
-Lemma flush_J s used tr :
-  J (cur s) used tr -> J (cur (fst (flush s))) used (tr ++ o_tx (snd (flush s))).
+Lemma In_firstn {A} (x : A) k l : In x (firstn k l) -> In x l.
 Proof.
-  intros HJ. unfold flush.
+  revert k. induction l as [|a l IH]; intros [|k]; cbn [firstn In]; try tauto.
+  intros [->|H]; [left; reflexivity|right; eapply IH; eauto].
+Qed.
+
+Lemma NoDup_firstn {A} k (l : list A) : NoDup l -> NoDup (firstn k l).
+Proof.
+  revert k. induction l as [|a l IH]; intros [|k] H; cbn [firstn]; try constructor.
+  - inversion H; subst. intros Hin. apply In_firstn in Hin. contradiction.
+  - inversion H; subst. apply IH. assumption.
+Qed.
+
+Definition sent_of (fail : option nat) (tx : list (N * N * N)) : list (N * N * N) :=
+  match fail with Some k => firstn k tx | None => tx end.
+
+Lemma sent_of_In fail tx t : In t (sent_of fail tx) -> In t tx.
+Proof. destruct fail; cbn [sent_of]; [apply In_firstn|auto]. Qed.
+
+Lemma sent_of_NoDup fail tx : NoDup (map kc tx) -> NoDup (map kc (sent_of fail tx)).
+Proof. destruct fail; cbn [sent_of]; [|auto]. rewrite <- firstn_map. apply NoDup_firstn. Qed.
+
+Lemma flush_gen_J fail s used tr :
+  J (cur s) used tr -> J (cur (fst (flush_gen fail s))) used (tr ++ o_tx (snd (flush_gen fail s))).
+Proof.
+  intros HJ. unfold flush_gen.
   destruct (staged s) as [|c0 q0] eqn:Est.
   { cbn [fst snd o_tx]. rewrite app_nil_r. exact HJ. }
   destruct (cur s) as [k|] eqn:Ec.
@@ -513,36 +535,42 @@ Proof.
   destruct (flush_loop_counters _ _ _ _ _ _ _ Hle E) as (G1 & G2 & G3 & G4).
   pose proof (flush_loop_ctrs _ _ _ _ _ _ _ Hle E) as G5.
   destruct HJ as (J1 & J2 & J3 & J4).
-  assert (Hres : J (Some {| kidx := kidx k; knonce := n'; kinit := kinit k |}) used (tr ++ tx)).
-  { unfold J. refine (conj _ (conj _ (conj J3 _))).
-    - apply Forall_app. split; [exact J1|]. eapply Forall_impl; [|exact G3]. cbn beta.
-      intros t (Hk & _ & _ & Hr). rewrite Hk. auto.
+  fold (sent_of fail tx).
+  assert (Hres : J (Some {| kidx := kidx k; knonce := n'; kinit := kinit k |}) used (tr ++ sent_of fail tx)).
+  { rewrite Forall_forall in G3.
+    unfold J. refine (conj _ (conj _ (conj J3 _))).
+    - apply Forall_app. split; [exact J1|]. apply Forall_forall. intros t Ht. apply sent_of_In in Ht.
+      destruct (G3 _ Ht) as (Hk & _ & _ & Hr). rewrite Hk. auto.
     - rewrite map_app. apply NoDup_app_intro; [exact J2| |].
-      + apply (NoDup_map_finer ctr kc).
+      + apply sent_of_NoDup. apply (NoDup_map_finer ctr kc).
         * intros x y Hxy. unfold kc in Hxy. congruence.
         * rewrite G5. apply nseq_NoDup.
       + intros x Hx1 Hx2. rewrite in_map_iff in Hx1, Hx2.
-        destruct Hx1 as (t1 & E1 & Ht1), Hx2 as (t2 & E2 & Ht2).
-        rewrite Forall_forall in G3. destruct (G3 _ Ht2) as (Hk2 & Hlo & _).
+        destruct Hx1 as (t1 & E1 & Ht1), Hx2 as (t2 & E2 & Ht2). apply sent_of_In in Ht2.
+        destruct (G3 _ Ht2) as (Hk2 & Hlo & _).
         assert (Hk1 : kix t1 = kidx k) by (unfold kc in *; congruence).
         assert (Hc : ctr t1 = ctr t2) by (unfold kc in *; congruence).
         specialize (J4 _ Ht1 Hk1). lia.
     - cbn [kidx knonce]. intros t Hin Hk. apply in_app_or in Hin as [Hin|Hin].
       + specialize (J4 _ Hin Hk). lia.
-      + rewrite Forall_forall in G3. destruct (G3 _ Hin) as (_ & _ & Hhi & _). exact Hhi. }
-  destruct (ex || (nonempty tx && (Rekey <? n'))).
-  - match goal with |- context [initiate ?s1 tx] => destruct (initiate_cur s1 tx) as [E1 E2]; rewrite E1, E2 end.
+      + apply sent_of_In in Hin. destruct (G3 _ Hin) as (_ & _ & Hhi & _). exact Hhi. }
+  destruct (ex || ((match fail with Some _ => false | None => true end) && nonempty tx && (Rekey <? n'))).
+  - match goal with |- context [initiate ?s1 (sent_of fail tx)] => destruct (initiate_cur s1 (sent_of fail tx)) as [E1 E2]; rewrite E1, E2 end.
     cbn [cur]. exact Hres.
   - cbn [fst snd cur o_tx]. exact Hres.
 Qed.
 
+Lemma flush_J s used tr :
+  J (cur s) used tr -> J (cur (fst (flush s))) used (tr ++ o_tx (snd (flush s))).
+Proof. apply flush_gen_J. Qed.
+
 (* Facts about flush that do not depend on the invariant. *)
-Lemma flush_facts s :
-  nxt (fst (flush s)) = nxt s /\
-  option_map kidx (cur (fst (flush s))) = option_map kidx (cur s) /\
-  (forall t, In t (o_tx (snd (flush s))) -> exists k, cur s = Some k /\ kix t = kidx k).
+Lemma flush_gen_facts fail s :
+  nxt (fst (flush_gen fail s)) = nxt s /\
+  option_map kidx (cur (fst (flush_gen fail s))) = option_map kidx (cur s) /\
+  (forall t, In t (o_tx (snd (flush_gen fail s))) -> exists k, cur s = Some k /\ kix t = kidx k).
 Proof.
-  unfold flush. destruct (staged s) as [|c0 q0] eqn:Est.
+  unfold flush_gen. destruct (staged s) as [|c0 q0] eqn:Est.
   { cbn [fst snd o_tx]. repeat split; auto. intros t []. }
   assert (Hinit : forall s1 tx, nxt (fst (initiate s1 tx)) = nxt s1 /\ cur (fst (initiate s1 tx)) = cur s1 /\ o_tx (snd (initiate s1 tx)) = tx).
   { intros s1 tx. unfold initiate. destruct (init_ok s1); cbn; auto. }
@@ -553,10 +581,11 @@ Proof.
   destruct (flush_loop (kidx k) (knonce k) (c0 :: q0)) as [[[n' q'] tx] ex] eqn:E.
   assert (Hle : knonce k <= Reject) by lia.
   destruct (flush_loop_counters _ _ _ _ _ _ _ Hle E) as (_ & _ & G3 & _).
-  assert (Htx : forall t, In t tx -> exists k0, Some k = Some k0 /\ kix t = kidx k0).
-  { intros t Ht. exists k. split; [reflexivity|]. rewrite Forall_forall in G3. apply (G3 t Ht). }
-  destruct (ex || (nonempty tx && (Rekey <? n'))).
-  - match goal with |- context [initiate ?s1 tx] => destruct (Hinit s1 tx) as (A & B & C); rewrite A, B, C end.
+  fold (sent_of fail tx).
+  assert (Htx : forall t, In t (sent_of fail tx) -> exists k0, Some k = Some k0 /\ kix t = kidx k0).
+  { intros t Ht. apply sent_of_In in Ht. exists k. split; [reflexivity|]. rewrite Forall_forall in G3. apply (G3 t Ht). }
+  destruct (ex || ((match fail with Some _ => false | None => true end) && nonempty tx && (Rekey <? n'))).
+  - match goal with |- context [initiate ?s1 (sent_of fail tx)] => destruct (Hinit s1 (sent_of fail tx)) as (A & B & C); rewrite A, B, C end.
     cbn [nxt cur option_map kidx]. repeat split; auto.
   - cbn [fst snd nxt cur o_tx option_map kidx]. repeat split; auto.
 Qed.
@@ -604,17 +633,21 @@ Qed.
 Lemma Jk_weaken c used tr x : Jk c used tr -> Jk c (x :: used) tr.
 Proof. destruct c as [k|]; cbn [Jk]; [|auto]. intros [A B]. split; [right; exact A|exact B]. Qed.
 
-Lemma flush_JJ s used tr : JJ s used tr -> JJ (fst (flush s)) used (tr ++ o_tx (snd (flush s))).
+Lemma flush_gen_JJ fail s used tr :
+  JJ s used tr -> JJ (fst (flush_gen fail s)) used (tr ++ o_tx (snd (flush_gen fail s))).
 Proof.
-  intros (HJ & Hn & Ha). destruct (flush_facts s) as (F1 & F2 & F3).
-  refine (conj (flush_J s used tr HJ) (conj _ _)).
+  intros (HJ & Hn & Ha). destruct (flush_gen_facts fail s) as (F1 & F2 & F3).
+  refine (conj (flush_gen_J fail s used tr HJ) (conj _ _)).
   - rewrite F1. destruct (nxt s) as [kn|] eqn:En; cbn [Jk] in *; [|exact I].
     destruct Hn as [A B]. split; [exact A|]. intros t Hin Hk.
     apply in_app_or in Hin as [Hin|Hin]; [apply B; assumption|].
     exfalso. destruct (F3 t Hin) as (k & Ec & Hkk). rewrite Ec in Ha. cbn [apart] in Ha. congruence.
-  - rewrite F1. destruct (cur (fst (flush s))) as [k'|] eqn:Ec'; destruct (cur s) as [k|] eqn:Ec; cbn [option_map] in F2; try discriminate; cbn [apart] in *; auto.
+  - rewrite F1. destruct (cur (fst (flush_gen fail s))) as [k'|] eqn:Ec'; destruct (cur s) as [k|] eqn:Ec; cbn [option_map] in F2; try discriminate; cbn [apart] in *; auto.
     destruct (nxt s); [|exact I]. inversion F2. congruence.
 Qed.
+
+Lemma flush_JJ s used tr : JJ s used tr -> JJ (fst (flush s)) used (tr ++ o_tx (snd (flush s))).
+Proof. apply flush_gen_JJ. Qed.
 
 Lemma JJ_stage s used tr q :
   JJ s used tr ->
@@ -626,7 +659,7 @@ Lemma dstep_JJ s used tr e :
   JJ (fst (dstep s e)) (used_after used e) (tr ++ o_tx (snd (dstep s e))).
 Proof.
   intros HJJ Hwf. pose proof HJJ as (HJ & Hn & Ha).
-  destruct e as [v|pkts|idx| |b|idx|]; cbn [dstep used_after ev_ok] in *.
+  destruct e as [v|pkts|idx| |b|idx| |pkts kf lost|pkts|]; cbn [dstep used_after ev_ok] in *.
   - (* SetNonce *)
     cbn [fst snd o_tx]. rewrite app_nil_r. destruct (cur s) as [k|] eqn:Ec.
     + unfold JJ. cbn [cur nxt]. refine (conj _ (conj Hn _)).
@@ -669,6 +702,18 @@ Proof.
       destruct HJ as (J1 & J2 & _). cbn [Jk] in Hn. destruct Hn as [A B].
       refine (conj J1 (conj J2 (conj A B))).
     + cbn [fst snd o_tx]. rewrite app_nil_r. exact HJJ.
+  - (* TunBatchErr *)
+    destruct pkts as [|p pkts].
+    + cbn [fst snd o_tx]. rewrite app_nil_r. exact HJJ.
+    + destruct (staged s) eqn:Est; [apply flush_gen_JJ|apply flush_JJ]; exact HJJ.
+  - (* TunBatchIErr: same state and transmissions as TunBatch *)
+    destruct pkts as [|p pkts].
+    + cbn [fst snd o_tx]. rewrite app_nil_r. exact HJJ.
+    + match goal with |- context [flush ?s0] =>
+        pose proof (flush_JJ s0 used tr HJJ) as H; destruct (flush s0) as [s' o] end.
+      cbn [fst snd o_tx] in *. exact H.
+  - (* Retransmit *)
+    destruct (pending s); cbn [fst snd o_tx]; rewrite app_nil_r; exact HJJ.
 Qed.
 
 Definition all_tx (s : dst) (evs : list ev) : list (N * N * N) := concat (map o_tx (outs dstep s evs)).
@@ -733,4 +778,68 @@ Proof.
   pose proof (rekey_after_2_60 s3 _ pkts E3 Hv Hp) as H.
   destruct (dstep s3 (TunBatch pkts)) as [s4 o]. cbn [snd]. intros Hex.
   destruct (H Hex) as [Hi _]. rewrite Hok in Hi. exact Hi.
+Qed.
+
+(* ------------------------------------------------------------------ bind errors *)
+
+(* A transport batch whose Bind.Send fails after k datagrams: exactly the first
+   k transmissions of the error-free step reach the wire, and the device state
+   afterwards (counters consumed, staged queue) is the one of the error-free
+   step -- the refused datagrams are never numbered or emitted again. *)
+Lemma initiate_proj s1 tx :
+  cur (fst (initiate s1 tx)) = cur s1 /\ nxt (fst (initiate s1 tx)) = nxt s1 /\
+  staged (fst (initiate s1 tx)) = staged s1 /\ o_tx (snd (initiate s1 tx)) = tx.
+Proof. unfold initiate. destruct (init_ok s1); cbn; auto. Qed.
+
+Lemma flush_gen_vs_flush k s :
+  cur (fst (flush_gen (Some k) s)) = cur (fst (flush s)) /\
+  nxt (fst (flush_gen (Some k) s)) = nxt (fst (flush s)) /\
+  staged (fst (flush_gen (Some k) s)) = staged (fst (flush s)) /\
+  o_tx (snd (flush_gen (Some k) s)) = firstn k (o_tx (snd (flush s))).
+Proof.
+  unfold flush, flush_gen.
+  destruct (staged s) as [|c q] eqn:Est.
+  { cbn [fst snd o_tx]. rewrite firstn_nil. auto. }
+  destruct (cur s) as [kp|] eqn:Ec.
+  2:{ destruct (initiate_proj s []) as (A1 & A2 & A3 & A4). rewrite A4, firstn_nil. auto. }
+  destruct (N.leb_spec Reject (knonce kp)).
+  { destruct (initiate_proj s []) as (A1 & A2 & A3 & A4). rewrite A4, firstn_nil. auto. }
+  destruct (flush_loop (kidx kp) (knonce kp) (c :: q)) as [[[n' q'] tx] ex].
+  cbn [andb]. destruct ex; cbn [orb].
+  - match goal with |- context [initiate ?s0 tx] =>
+      destruct (initiate_proj s0 tx) as (A1 & A2 & A3 & A4); destruct (initiate_proj s0 (firstn k tx)) as (B1 & B2 & B3 & B4) end.
+    rewrite A1, A2, A3, A4, B1, B2, B3, B4. auto.
+  - destruct (nonempty tx && (Rekey <? n')).
+    + match goal with |- context [initiate ?s0 tx] => destruct (initiate_proj s0 tx) as (A1 & A2 & A3 & A4) end.
+      rewrite A1, A2, A3, A4. cbn [fst snd cur nxt staged o_tx]. auto.
+    + cbn [fst snd cur nxt staged o_tx]. auto.
+Qed.
+
+Theorem refused_batch_consumes_counters s pkts k lost :
+  staged s = [] -> pkts <> [] ->
+  let r1 := dstep s (TunBatch pkts) in
+  let r2 := dstep s (TunBatchErr pkts k lost) in
+  cur (fst r2) = cur (fst r1) /\ nxt (fst r2) = nxt (fst r1) /\ staged (fst r2) = staged (fst r1) /\
+  o_tx (snd r2) = firstn k (o_tx (snd r1)).
+Proof.
+  intros Hst Hp. cbn zeta. cbn [dstep]. destruct pkts as [|p pkts]; [congruence|]. rewrite Hst.
+  apply flush_gen_vs_flush.
+Qed.
+
+(* A refused initiation still counts as an attempt: the handshake stays pending
+   and the retransmit timer repeats it. *)
+Theorem refused_initiation_is_retried s k pkts :
+  cur s = Some k -> Reject <= knonce k -> pkts <> [] -> init_ok s = true ->
+  let '(s1, o1) := dstep s (TunBatchIErr pkts) in
+  o_tx o1 = [] /\ o_init o1 = 0 /\ pending s1 = true /\ staged s1 = stage (staged s) pkts /\
+  o_init (snd (dstep s1 Retransmit)) = 1.
+Proof.
+  intros Hc Hk Hp Hok. pose proof (exhausted_key_rekeys s k pkts Hc Hk Hp) as H.
+  cbn [dstep] in *. destruct pkts as [|p pkts]; [congruence|].
+  unfold flush, flush_gen in *. cbn [staged cur init_ok pending] in *.
+  destruct (stage (staged s) (p :: pkts)) as [|c q] eqn:Est.
+  { cbn in H. destruct H as (_ & H & _). rewrite Hok in H. discriminate. }
+  rewrite Hc in *. destruct (N.leb_spec Reject (knonce k)) as [_|C]; [|lia].
+  unfold initiate in *. cbn [init_ok] in *. rewrite Hok in *. cbn [o_tx o_init pending staged fst snd].
+  repeat split; reflexivity.
 Qed.
